@@ -118,3 +118,6 @@ package encoding
 // stand-in (random templates and populations within a stated bound, /verif/bounded) runs
 // with the check and is reported as bounded, never as proved.
 //@ bounded[C02] c02_roundtrip: unmarshalItems(template, serialize(m)) succeeds and re-serializes to the same bytes, over nested templates
+// The closing step of C03 ("one byte off a framed message is not framed") is trusted in the
+// proof above; a bounded stand-in tries every single-byte edit of a fixed set of messages.
+//@ bounded[C03] c03_single_byte_edits @tests: every single-byte substitution, insertion, deletion and proper prefix of a fixed set of valid messages is rejected, both strict modes
